@@ -4,6 +4,7 @@ From Helm Require Props.Skeleton. (* effect skeleton tied to /repo by the transl
 From Coq Require Import List String Bool ZArith.
 From Helm Require Import Engine.Types Engine.Eff Engine.Ops Engine.Cluster Engine.Seq
                          Engine.DryRun Engine.DryRunProofs Gen.DryRunSpellings.
+From Helm Require Import Engine.DryOps Engine.DryOpsProofs.
 Import ListNotations.
 Local Open Scope string_scope.
 
@@ -144,3 +145,136 @@ Example C06_dry_example_all_ops :
            (OpUninstall (ex_flags false), ex_world)] = true.
 Proof. vm_compute. reflexivity. Qed.
 Print Assumptions C06_dry_example_all_ops.
+
+(* ================================================================== *)
+(* The richer model (Engine/DryOps.v): reachability check, discovery, Build, the per-object GETs
+   of the ownership pre-flight, `lookup` in templates, post-renderer, --output-dir, installCRDs,
+   CreateNamespace, the ClientOnly back-end swap, and helm template's flag plumbing.  Options by
+   Go field name: [fb fl "CreateNamespace"]; "for all options" = for all lists of set names. *)
+
+(* (1) every operation that is a dry run as isDryRun / the DryRun boolean decides (helm template
+   always is): for EVERY option assignment, chart (any crds/, hooks, resources, lookups),
+   configuration (REST client getter or not, capabilities cached or not), on EVERY path whatever
+   the cluster, the storage, the post-renderer answer, each effect is one of: reachability check,
+   discovery, Build of the manifests, a GET of the ownership pre-flight, a lookup, a storage
+   read, the post-renderer, an --output-dir file, obtaining a waiter.  No CRD creation, no
+   namespace creation, no Create/Update/Delete on the cluster, no storage write, no wait. *)
+Theorem C06_rich_dry_effects :
+  forall (rn ns : string) (o : xop),
+    xop_dry o = true ->
+    all_xeff (fun e => match e with
+                       | XE TReal SHistory | XE TReal SDeployedAll | XE TReal (SGet _) => True
+                       | XReach | XCaps | XGetObj _ | XPostRender _ | XWriteFile | XGetWaiter TReal => True
+                       | XBuild _ BManifest _ _ | XBuild TReal BCurrent _ _ => True
+                       | XLookup => True
+                       | _ => False
+                       end) (xop_prog rn ns o)
+    /\ all_xeff (fun e => x_cluster_mut e = false /\ x_store_write e = false) (xop_prog rn ns o).
+Proof. exact xop_dry_effects'. Qed.
+Print Assumptions C06_rich_dry_effects.
+
+(* the same about the trace: whatever handler (storage, cluster, post-renderer, ...) answers *)
+Theorem C06_rich_dry_trace :
+  forall (rn ns : string) (o : xop) (S : Type) (h : forall e : xeff, S -> S * xresp e) (s : S),
+    xop_dry o = true ->
+    Forall (fun e => x_cluster_mut e = false /\ x_store_write e = false) (xtrace S h (xop_prog rn ns o) s).
+Proof. exact xop_dry_trace. Qed.
+Print Assumptions C06_rich_dry_trace.
+
+(* templates reach the cluster (`lookup`) only when DryRunOption is server / none / false AND the
+   configuration has a REST client getter *)
+Theorem C06_rich_dry_lookups :
+  forall (rn ns : string) (g : xcfg) (fl : xflags) (c : xchart),
+    is_dry_run (fb fl "DryRun") (xf_opt fl) = true ->
+    (In (xf_opt fl) ["server"; "none"; "false"] /\ xg_getter g = true -> False) ->
+    all_xeff (fun e => e <> XLookup) (x_install rn ns g fl c) /\
+    all_xeff (fun e => e <> XLookup) (x_upgrade rn ns g fl c).
+Proof. exact xop_dry_lookups. Qed.
+Print Assumptions C06_rich_dry_lookups.
+
+(* (2) ClientOnly, dry run or not, whatever else is set: no mutating request, no write to the
+   configured storage, and the only effect that reaches the configured cluster at all is a lookup *)
+Theorem C06_rich_client_only :
+  forall (rn ns : string) (g : xcfg) (fl : xflags) (c : xchart),
+    fb fl "ClientOnly" = true ->
+    all_xeff (fun e => x_cluster_mut e = false /\ x_store_write e = false /\ (x_cluster e = true -> e = XLookup))
+             (x_install rn ns g fl c).
+Proof. exact x_client_only_effects. Qed.
+Print Assumptions C06_rich_client_only.
+
+(* ClientOnly + dry run + a spelling that does not ask for the server (or no getter): nothing
+   reaches the configured cluster and nothing touches the configured storage, not even a read *)
+Theorem C06_rich_client_only_silent :
+  forall (rn ns : string) (g : xcfg) (fl : xflags) (c : xchart),
+    fb fl "ClientOnly" = true ->
+    is_dry_run (fb fl "DryRun") (xf_opt fl) = true ->
+    interact_with_remote (is_dry_run (fb fl "DryRun") (xf_opt fl)) (xf_opt fl) && xg_getter g = false ->
+    all_xeff (fun e => x_cluster e = false /\ x_store e = false) (x_install rn ns g fl c).
+Proof. exact x_client_only_silent'. Qed.
+Print Assumptions C06_rich_client_only_silent.
+
+(* (3) helm template (newTemplateCmd forces DryRun, Replace, ClientOnly = not --validate, turns an
+   empty --dry-run value into "true"; runInstall refuses other values), for every other
+   command-line option [cli]: never a mutating request or a storage write; without --validate the
+   only cluster effect is a lookup; without --validate and with --dry-run not server/none/false
+   nothing reaches the cluster or the storage *)
+Theorem C06_rich_template :
+  forall (rn ns : string) (g : xcfg) (validate include_crds : bool) (cli : xflags) (c : xchart),
+    all_xeff (fun e => x_cluster_mut e = false /\ x_store_write e = false)
+             (x_template rn ns g validate include_crds cli c) /\
+    (validate = false ->
+     all_xeff (fun e => x_cluster e = true -> e = XLookup) (x_template rn ns g validate include_crds cli c)) /\
+    (validate = false ->
+     negb (String.eqb (xf_opt cli) "server" || String.eqb (xf_opt cli) "none" || String.eqb (xf_opt cli) "false") = true ->
+     all_xeff (fun e => x_cluster e = false /\ x_store e = false) (x_template rn ns g validate include_crds cli c)).
+Proof. exact x_template_effects'. Qed.
+Print Assumptions C06_rich_template.
+
+(* what template's plumbing does to the options *)
+Theorem C06_rich_template_flags :
+  forall (validate include_crds : bool) (cli : xflags),
+    fb (template_flags validate include_crds cli) "DryRun" = true /\
+    fb (template_flags validate include_crds cli) "ClientOnly" = negb validate /\
+    fb (template_flags validate include_crds cli) "Replace" = true /\
+    fb (template_flags validate include_crds cli) "IncludeCRDs" = include_crds /\
+    xf_opt (template_flags validate include_crds cli) = (if String.eqb (xf_opt cli) "" then "true" else xf_opt cli) /\
+    (forall n, n <> "DryRun" -> n <> "ClientOnly" -> n <> "Replace" -> n <> "IncludeCRDs" ->
+               fb (template_flags validate include_crds cli) n = fb cli n).
+Proof. exact template_flags_spec. Qed.
+Print Assumptions C06_rich_template_flags.
+
+(* what follows the bail-out in the richer install / upgrade is the text of the shared model *)
+Theorem C06_rich_tails_are_shared_model :
+  forall (rn ns : string) (fl : flags) (cid vid : nat) (mani : list res) (hks : list hook),
+    f_dry_run fl = false -> f_client_only fl = true ->
+    install rn ns fl cid vid mani hks =
+    bind (bind (perform SHistory) (fun h =>
+                match max_rev_of h with
+                | None => Ret true
+                | Some last => Ret (f_replace fl && (status_eqb (st last) SUninstalled || status_eqb (st last) SFailed))
+                end))
+         (fun avail => if negb avail then Ret (OErr ENameInUse)
+                       else install_tail fl (mkRelease 1 SPendingInstall cid vid mani hks) (stamp_all rn ns mani) []).
+Proof. intros rn ns fl cid vid mani hks H1 H2. rewrite install_split, H1, H2. reflexivity. Qed.
+Print Assumptions C06_rich_tails_are_shared_model.
+
+(* non-vacuity: a chart with crds/, a lookup and CreateNamespace, every answer "yes", empty
+   history.  Without a dry spelling the run creates the CRD, the namespace, and writes to the
+   storage; with DryRunOption=server (getter present) the trace is the reads below - including
+   the lookup -; with client / the boolean the lookup is gone too; ClientOnly + dry: the
+   post-renderer at most. *)
+Example C06_rich_example :
+  existsb is_crd_create (yes_trace (x_install "rel" "default" ex_cfg (ex_xflags ["CreateNamespace"] "none") ex_chart)) = true /\
+  existsb is_ns_create (yes_trace (x_install "rel" "default" ex_cfg (ex_xflags ["CreateNamespace"] "none") ex_chart)) = true /\
+  existsb x_store_write (yes_trace (x_install "rel" "default" ex_cfg (ex_xflags ["CreateNamespace"] "none") ex_chart)) = true /\
+  yes_trace (x_install "rel" "default" ex_cfg (ex_xflags ["CreateNamespace"] "server") ex_chart) =
+    [XReach; XLookup; XBuild TReal BManifest true 1;
+     XGetObj (mkRes "ConfigMap" "a" [("d:k", "v"); ("l:app.kubernetes.io/managed-by", "Helm");
+                                     ("a:meta.helm.sh/release-name", "rel"); ("a:meta.helm.sh/release-namespace", "default")])] /\
+  existsb is_lookup (yes_trace (x_install "rel" "default" ex_cfg (ex_xflags ["CreateNamespace"] "client") ex_chart)) = false /\
+  existsb is_lookup (yes_trace (x_install "rel" "default" ex_cfg (ex_xflags ["CreateNamespace"; "DryRun"] "") ex_chart)) = false /\
+  yes_trace (x_template "rel" "default" ex_cfg false true (ex_xflags ["CreateNamespace"; "PostRenderer"; "Atomic"] "") ex_chart) =
+    [XPostRender [mkRes "CustomResourceDefinition" "widgets.example.com" []; mkRes "ConfigMap" "a" [("d:k", "v")]]; XBuild TPriv BManifest true 2] /\
+  existsb is_lookup (yes_trace (x_template "rel" "default" ex_cfg false true (ex_xflags [] "server") ex_chart)) = true.
+Proof. repeat split; vm_compute; reflexivity. Qed.
+Print Assumptions C06_rich_example.
